@@ -21,8 +21,19 @@ class Ctx:
         return max(1, int(tot * self.scale / self.nworkers))
 
     def journal(self, case):
-        with open(self._cur, "w") as fh:
-            json.dump(case, fh, default=repr)
+        """Records the case about to be executed in a shared file mapping (no system call per case); the data
+        survive the death of the process and are read by the runner."""
+        import mmap
+        if getattr(self, "_mm", None) is None:
+            fd = os.open(self._cur, os.O_RDWR | os.O_CREAT | os.O_TRUNC)
+            os.ftruncate(fd, 1 << 18)
+            self._mm = mmap.mmap(fd, 1 << 18)
+            os.close(fd)
+        b = json.dumps(case, default=repr).encode()
+        if len(b) > (1 << 18) - 16:
+            b = json.dumps({"truncated": True, "head": b[:4000].decode(errors="replace")}).encode()
+        self._mm[8:8 + len(b)] = b
+        self._mm[0:8] = len(b).to_bytes(8, "little")
 
     def known_active(self, slug):
         from vlib.harness import load_known
